@@ -431,3 +431,7 @@ BENIGN = [
 for _name, _file, _o, _n, _props, _pairs in BENIGN:
     for _p in _props:
         VARIANTS.append((f"{_p}-benign-{_name}", _p, _file, [(a, b) for a, b in _pairs] if _pairs else [(_o, _n)], None, None, None))
+
+VARIANTS += [
+    ("C13-rs-round-early", "C13", RSP, "                                    let extra_seconds =\n                                        (extra_minutes - extra_full_minutes) * 60.0;\n                                    let extra_full_seconds = extra_seconds.trunc();\n                                    duration.seconds += extra_full_seconds as u32;\n                                    let micro_extra = ((extra_seconds - extra_full_seconds)\n                                        * 1_000_000.0)\n                                        .round()\n                                        as u32;\n                                    duration.microseconds += micro_extra;\n                                }\n                            }\n                            'M' => {", "                                    let extra_seconds =\n                                        ((extra_minutes - extra_full_minutes) * 60.0).round();\n                                    let extra_full_seconds = extra_seconds.trunc();\n                                    duration.seconds += extra_full_seconds as u32;\n                                    let micro_extra = ((extra_seconds - extra_full_seconds)\n                                        * 1_000_000.0)\n                                        .round()\n                                        as u32;\n                                    duration.microseconds += micro_extra;\n                                }\n                            }\n                            'M' => {", "ROUND-LAST"),
+]
